@@ -35,7 +35,7 @@ def default_shift(ctor, ax, frm):
     return fallback([p for p, _ in ax["pos"]], frm)
 
 
-def gen_case(rng, cid, ops=OPS, nmax=5, maxelems=120, ev="Stencil", allow_empty=False):
+def gen_case(rng, cid, ops=OPS, nmax=5, maxelems=120, ev="Stencil", allow_empty=False, specials=False):
     while True:
         dimctr = [0]
         naxes = rng.choice([1, 1, 1, 2, 2, 3])
@@ -110,6 +110,8 @@ def gen_case(rng, cid, ops=OPS, nmax=5, maxelems=120, ev="Stencil", allow_empty=
         data = gen.rand_data(rng, dims_shape)
         if rng.random() < 0.25:
             data["dtype"] = rng.choice(["float32", "int64", "int32"])
+        elif specials and rng.random() < 0.12:
+            gen.sprinkle_specials(rng, data)        # missing values and infinities among the data
         args = {"data": data, "axis": [a["name"] for a in opaxes], "to": to,
                 "boundary": gen.rand_tagged(rng, axnames, gen.RULES, partial=True),
                 "fill_value": gen.rand_tagged(rng, axnames, [-3, -2, -1, 0, 1, 2, 3], partial=True)}
@@ -202,7 +204,7 @@ def run(ctx):
     ctx.mc("MC_Stencil", "MC_Stencil_thorough.cfg" if thorough else "MC_Stencil_quick.cfg", coverage=True)
     rng = random.Random(ctx.seed * 7919 + 1)
     n = 40000 if thorough else 1500
-    cases = [gen_case(rng, k + 1, nmax=6 if thorough else 5, allow_empty=True) for k in range(n)]
+    cases = [gen_case(rng, k + 1, nmax=6 if thorough else 5, allow_empty=True, specials=True) for k in range(n)]
     if thorough:
         cases += table_cases(len(cases) + 1)
     else:
